@@ -10,6 +10,39 @@ REL_TOL = 1e-9          # relative to `scale` (values) / `scale**2` (covariances
 NAMES = ["age", "b", "zip", "s0", "x1", "a", "income", "f", "c2", "g"]
 ALPHAS = ["1", "1", "1", "0", "1/4", "1/2", "3/4"]
 
+# sha256 of the definitions (comments and blank lines stripped) of lean/FairModel/Generated/CorrRemoverSrc.lean as lifted
+# from the pinned tree: while it matches, lifted-model-vs-oracle disagreements are bugs of this machinery (exit 2);
+# after a source edit that changed the lifted text they are a broken tie (exit 1).
+PINNED_SRC_SHA256 = "8b64c004adb56dd4bb5402c5dbf50037c769339f20e8207e76bcc414ba1b21f5"
+_SRC_STATE = {}
+
+
+def src_fingerprint():
+    import hashlib
+    import os
+    from .. import leanrun
+    path = os.path.join(leanrun.LEAN, "FairModel", "Generated", "CorrRemoverSrc.lean")
+    with open(path) as f:
+        txt = leanrun.strip_comments(f.read())
+    body = "\n".join(ln.rstrip() for ln in txt.splitlines() if ln.strip())
+    return hashlib.sha256(body.encode()).hexdigest()
+
+
+def src_changed():
+    if "v" not in _SRC_STATE:
+        try:
+            _SRC_STATE["v"] = src_fingerprint() != PINNED_SRC_SHA256
+        except OSError:
+            _SRC_STATE["v"] = False
+    return _SRC_STATE["v"]
+
+
+def model_problem(msg):
+    if src_changed():
+        return Problem("correspondence", "the model re-built from the LIFTED source departs from the property's oracle: " + msg,
+                       "C15.src_model_eq")
+    return Problem("harness", msg)
+
 
 # ------------------------------------------------------------------ exact linear algebra (oracle)
 def fdot(a, b):
@@ -318,11 +351,17 @@ class CHECK(Check):
         eb, em = proto.mat(sp.beta), proto.lst(sp.smean)
         ls += [f"corr.normal {X} {ids} {em} {eb}", f"corr.cov {X} {ids} {em} {eb} 1",
                f"corr.transform {X} {ids} {em} {eb} {proto.rat(sp.alpha)}"]
+        # the model re-built from the lifted source text (Generated/CorrRemoverSrc.lean), exact least-squares beta
+        ls += [f"corrsrc.means {X} {ids}", f"corrsrc.split {sp.m} {ids}", f"corrsrc.normal {X} {ids} {eb}",
+               f"corrsrc.transform {X} {ids} {em} {eb} {proto.rat(sp.alpha)}"]
         if "exc" in o or "crash" in o or not self._usable(o, sp):
             return ls
         mean, beta, a = proto.lst(o["mean"]), proto.mat(o["beta"]), proto.rat(sp.alpha)
         ls += [f"corr.normal {X} {ids} {mean} {beta}", f"corr.transform {X} {ids} {mean} {beta} {a}",
                f"corr.cov {X} {ids} {mean} {beta} {a}", f"corr.transform {Xn} {ids} {mean} {beta} {a}"]
+        # lifted model with the fitted state
+        ls += [f"corrsrc.normal {X} {ids} {beta}", f"corrsrc.transform {X} {ids} {mean} {beta} {a}",
+               f"corrsrc.transform {Xn} {ids} {mean} {beta} {a}"]
         return ls
 
     @staticmethod
@@ -340,8 +379,8 @@ class CHECK(Check):
         tol2 = REL_TOL * sp.scale ** 2 * sp.n
         # ---- model vs oracle (exact) ------------------------------------------------
         if mo is not None:
-            if len(mo) < 5 or "bad-op" in mo[:5]:
-                return [Problem("harness", f"driver rejected a valid case: {mo[:5]}")]
+            if len(mo) < 9 or "bad-op" in mo[:5]:
+                return [Problem("harness", f"driver rejected a valid case: {mo[:9]}")]
             if proto.p_list(mo[0]) != sp.smean:
                 probs.append(Problem("harness", f"model column means {mo[0]} vs oracle {sp.smean}"))
             if [int(t) for t in proto.p_list(mo[1])] != sp.ns:
@@ -352,6 +391,17 @@ class CHECK(Check):
                 probs.append(Problem("harness", f"model covariance for an exact least-squares beta is not 0: {mo[3]} (theorem `uncorrelated`)"))
             if proto.p_mat(mo[4]) != to_rows(sp.out, sp.n):
                 probs.append(Problem("harness", "model transform with exact beta differs from the exact projection residual"))
+            # the lifted model against the same oracle
+            if "bad-op" in mo[5:9]:
+                probs.append(model_problem(f"the model re-built from the lifted source rejects a valid case: {mo[5:9]}"))
+            elif proto.p_list(mo[5]) != sp.smean:
+                probs.append(model_problem(f"lifted fit stores mean {mo[5]}, per-column means are {[str(v) for v in sp.smean]}"))
+            elif [int(t) for t in proto.p_list(mo[6])] != sp.ns:
+                probs.append(model_problem(f"lifted _split_X keeps columns {mo[6]}, the non-sensitive positions in order are {sp.ns}"))
+            elif any(v != 0 for r in proto.p_mat(mo[7]) for v in r):
+                probs.append(model_problem(f"the exact least-squares beta does not solve the problem lstsq is called with in the source: {mo[7]}"))
+            elif proto.p_mat(mo[8]) != to_rows(sp.out, sp.n):
+                probs.append(model_problem("lifted transform with the exact beta differs from alpha*residual + (1-alpha)*original"))
         # ---- implementation vs property oracle ---------------------------------------
         if "crash" in o:
             return probs + [Problem("correspondence", f"adapter crashed: {o}", "impl-total")]
@@ -416,30 +466,45 @@ class CHECK(Check):
                 probs.append(Problem("correspondence", f"fitted state has unexpected shape: mean {o.get('mean_shape')}, beta {np.shape(o.get('beta'))}",
                                      "C15.fitted_state"))
                 return probs
-            if len(mo) != 9 or "bad-op" in mo:
-                return probs + [Problem("harness", f"driver rejected the fitted state: {mo[5:]}")]
+            if len(mo) != 16 or "bad-op" in mo[9:13]:
+                return probs + [Problem("harness", f"driver rejected the fitted state: {mo[9:]}")]
+            if "bad-op" in mo[13:16] or "bad-op" in mo[5:9]:
+                return probs + [model_problem(f"the model re-built from the lifted source rejects the fitted state: {mo[13:]}")]
             dm = max(abs(a - float(b)) for a, b in zip(o["mean"], sp.smean))
             mean_ok = dm <= tol
             if not mean_ok:
                 probs.append(Problem("correspondence", f"sensitive_mean_ {o['mean']} (shape {o['mean_shape']}) is not the vector of column means "
                                      f"{[float(v) for v in sp.smean]}", "C15.fitMean"))
             bscale = max(1.0, max(abs(v) for r in o["beta"] for v in r))
-            nres = max([abs(float(v)) for r in proto.p_mat(mo[5]) for v in r] + [0.0])
+            nres = max([abs(float(v)) for r in proto.p_mat(mo[9]) for v in r] + [0.0])
             lstsq_ok = nres <= tol2 * bscale
             if not lstsq_ok:
                 probs.append(Problem("correspondence", f"fitted beta_ violates the normal equations of (S - sensitive_mean_) by {nres:.3g} "
                                      "(hypothesis isLstsq of the theorems)", "C15.isLstsq"))
-            d = maxdiff(ft, proto.p_mat(mo[6]))
+            d = maxdiff(ft, proto.p_mat(mo[10]))
             if d is None or d > tol * bscale:
                 probs.append(Problem("correspondence", f"fit_transform differs from the model's transform(mean_, beta_, alpha) by {d}",
                                      "C15.transform_entry"))
-            d = maxdiff(o["new"], proto.p_mat(mo[8]))
+            d = maxdiff(o["new"], proto.p_mat(mo[12]))
             if d is None or d > tol * bscale:
                 probs.append(Problem("correspondence", f"transform(new) differs from the model's transform(mean_, beta_, alpha) by {d}",
                                      "C15.transform_new_data"))
+            # the lifted model with the fitted state: normal equations of the operands lstsq is called with, transform of the
+            # training batch and of new data
+            nres_s = max([abs(float(v)) for r in proto.p_mat(mo[13]) for v in r] + [0.0])
+            if nres_s > tol2 * bscale and lstsq_ok:
+                probs.append(Problem("correspondence", f"fitted beta_ violates the normal equations of the lstsq operands lifted from the source by {nres_s:.3g}",
+                                     "C15.src_uncorrelated"))
+            d = maxdiff(ft, proto.p_mat(mo[14]))
+            if d is None or d > tol * bscale:
+                probs.append(Problem("correspondence", f"fit_transform differs from the transform lifted from the source by {d}", "C15.src_alpha_blend"))
+            d = maxdiff(o["new"], proto.p_mat(mo[15]))
+            if d is None or d > tol * bscale:
+                probs.append(Problem("correspondence", f"transform(new) differs from the transform lifted from the source by {d}",
+                                     "C15.src_transform_new_data"))
             if mean_ok and lstsq_ok:
                 # theorem cov_alpha instance on the model: cov = (1 - alpha) * cov(Z, S) up to the lstsq residual
-                cm = proto.p_mat(mo[7])
+                cm = proto.p_mat(mo[11])
                 for j in range(sp.mz):
                     for k in range(sp.ms):
                         want = (1 - sp.alpha) * cov_num(sp.Z[j], sp.S[k]) / (sp.n - 1)
